@@ -217,3 +217,20 @@ pub open spec fn params_scope(p: Parameters, sc: Scopes) -> bool {
     &&& forall|n: Seq<char>| #![trigger sc[0].dom().contains(n)] sc[0].dom().contains(n) <==> param_texts(p).contains(n)
     &&& forall|n: Seq<char>| #![trigger sc[0][n]] param_texts(p).contains(n) ==> sc[0][n] == param_decl(p)
 }
+
+// ---- C17 at the level of this pass: the warnings are a function of the parameter list and the body. The outermost
+// scope is determined by the parameters, hence so is the list of owed warnings; two runs append reports for the same
+// warnings, in the same order.
+pub proof fn theorem_pass_deterministic(p: Parameters, body: ast::Statement, r0: Seq<Report>, ra: Seq<Report>, rb: Seq<Report>, sca: Scopes, scb: Scopes)
+    requires params_scope(p, sca), params_scope(p, scb), added(r0, ra, shadows_of(body, sca)), added(r0, rb, shadows_of(body, scb)),
+    ensures
+        sca == scb,
+        ra.len() == rb.len(),
+        forall|k: int| 0 <= k < shadows_of(body, sca).len() ==> is_shadow_report(ra[r0.len() + k], #[trigger] shadows_of(body, sca)[k]) && is_shadow_report(rb[r0.len() + k], shadows_of(body, sca)[k]),
+{
+    assert(sca[0] =~= scb[0]) by {
+        assert forall|n: Seq<char>| sca[0].dom().contains(n) == scb[0].dom().contains(n) by {}
+        assert forall|n: Seq<char>| sca[0].dom().contains(n) implies sca[0][n] == scb[0][n] by {}
+    }
+    assert(sca =~= scb);
+}
